@@ -30,6 +30,7 @@ def tokenize(s: str) -> List[str]:
 
 class Stmt:
     def __init__(self, kind: str, text: str):
+        self.conflict = None              # conflict clause of INSERT OR <x> / UPDATE OR <x>
         self.kind = kind                  # select | insert | update | delete | create_table | create_index | pragma
         self.text = text
         self.table: Optional[str] = None
@@ -139,7 +140,7 @@ def parse(text: str) -> Stmt:
     if p.kw("INSERT"):
         s = Stmt("insert", text)
         if p.kw("OR"):
-            p.ident()
+            s.conflict = p.ident().lower()          # INSERT OR REPLACE / IGNORE / ...
         p.expect("INTO")
         s.table = p.ident().lower()
         p.expect("(")
